@@ -330,12 +330,20 @@ class XsdWildcard(XsdComponent):
         if w1.target_namespace in w2.namespace and '' in w2.namespace:
             self.namespace.clear()
             self.namespace.add('##any')
+        elif w1.target_namespace in w2.namespace:
+            # The set includes the negated namespace but not absent: not(absent)
+            self.namespace.clear()
+            self.not_namespace = {''}
         elif '' not in w2.namespace and w1.target_namespace == w2.target_namespace:
             self.namespace.clear()
             self.namespace.add('##other')
         elif self.xsd_version == '1.0':
             msg = _("not expressible wildcard namespace union: {0!r} V {1!r}:")
             raise XMLSchemaValueError(msg.format(other.namespace, self.namespace))
+        elif '' in w2.namespace:
+            # The set includes absent but not the negated namespace
+            self.namespace.clear()
+            self.not_namespace = {w1.target_namespace}
         else:
             self.namespace.clear()
             self.not_namespace = {'', w1.target_namespace}
